@@ -35,6 +35,13 @@ try:
 except Exception:
     traceback.print_exc()
     rc = 1
+try:
+    from props import _pyobject
+    r = _pyobject.regenerate_pyobject(sp, model.LEAN_DIR)
+    print('regenerated pyobject', [(o.get('name'), o.get('ok')) for o in r])
+except Exception:
+    traceback.print_exc()
+    rc = 1
 leanproof.write_driver_all()
 leanproof.write_root()
 sys.exit(rc)
